@@ -106,7 +106,7 @@ pub fn rule_of(name: &str, e: &Expr) -> Rule {
 // rule expression generators
 
 /// 0 = succeeds; 1.. = fails with a distinct error class each
-pub const RULE_KINDS: usize = 11;
+pub const RULE_KINDS: usize = 14;
 
 pub fn rule_of_kind(k: usize, salt: i128) -> Expr {
     let i = |x: i128| Expr::value(x);
@@ -121,6 +121,9 @@ pub fn rule_of_kind(k: usize, salt: i128) -> Expr {
         7 => Expr::func(format!("nofn{salt}"), i(1)),                                // UnknownUserFunction
         8 => Expr::func("ff", i(salt)),                                              // UserFunctionError
         9 => Expr::add(Expr::value(i128::MAX), i(1)),                                // out of range
+        10 => Expr::dec(Expr::value(1i128 << 96)),                                   // cast out of range
+        11 => Expr::add(Expr::Value(pool::dt(pool::LAST_TS, 0)), Expr::duration(i(salt.max(1)))), // date out of range
+        12 => Expr::int(Expr::Value(Value::Float(1e300))),                           // float not representable
         _ => Expr::Vec(vec![Expr::func("fa", Expr::reff("vi")), Expr::func("fb", i(salt)), Expr::symbol("sa")]),
     }
 }
